@@ -20,7 +20,8 @@ class C16(Check):
     rule = ("random code bases: 0-12 files with contents from a pool of 10 byte strings (empty, prefix pairs, "
             "last-byte differences), symlinked twins, twins excluded by pattern, nested directories; a case is "
             "non-trivial if at least one duplicate group exists AND at least one file is unique or a link/excluded twin is present")
-    assumptions = ["filecmp.cmp(shallow=False) is byte equality; hashlib digest is a function of content",
+    assumptions = ["all regular files of a case carry the same mtime (worst case for stat-based shortcuts)",
+                   "filecmp.cmp(shallow=False) is byte equality; hashlib digest is a function of content",
                    "CodeBase iteration yields each member path once (C09)"]
 
     def generate(self):
@@ -75,6 +76,9 @@ class C16(Check):
                 os.symlink(os.path.relpath(root / k[5:], p.parent), p)
             else:
                 p.write_bytes(c.encode())
+                # one timestamp for every file (as after a checkout or an archive extraction): a
+                # comparison that trusts os.stat signatures (size + mtime) cannot tell the files apart
+                os.utime(p, ns=(1_700_000_000_000_000_000, 1_700_000_000_000_000_000))
         cb = codebasin.CodeBase(root, exclude_patterns=["ex/"])
         try:
             groups = report.find_duplicates(cb)
